@@ -430,6 +430,8 @@ class Evaluator:
 
     def compare(self, op, left, right, fi):
         # dunder comparisons on repo objects
+        if op in (ast.Is, ast.IsNot, ast.In, ast.NotIn):
+            return _CMP[op](left, right)
         if isinstance(left, Obj):
             name = {ast.Eq: "__eq__", ast.Lt: "__lt__", ast.Gt: "__gt__", ast.NotEq: "__ne__"}.get(op)
             m = name and self.prog.lookup_method(left.cls, name)
